@@ -247,6 +247,35 @@ def build(spec, how):
     return cls.from_ical(build_api(spec).to_ical())
 
 
+def to_jsonable(x):
+    """spec -> JSON-able form (for replay files)"""
+    if isinstance(x, datetime):
+        return {'$dt': x.isoformat()}
+    if isinstance(x, date):
+        return {'$d': x.isoformat()}
+    if isinstance(x, tuple):
+        return {'$t': [to_jsonable(y) for y in x]}
+    if isinstance(x, list):
+        return [to_jsonable(y) for y in x]
+    if isinstance(x, dict):
+        return {k: to_jsonable(v) for k, v in x.items()}
+    return x
+
+
+def from_jsonable(x):
+    if isinstance(x, dict):
+        if '$dt' in x:
+            return datetime.fromisoformat(x['$dt'])
+        if '$d' in x:
+            return date.fromisoformat(x['$d'])
+        if '$t' in x:
+            return tuple(from_jsonable(y) for y in x['$t'])
+        return {k: from_jsonable(v) for k, v in x.items()}
+    if isinstance(x, list):
+        return [from_jsonable(y) for y in x]
+    return x
+
+
 # ------------------------------------------------------------------ model inputs
 
 def enc_alarm_spec(a):
@@ -597,7 +626,9 @@ def correspondence(ctx):
                 v = mk_value(rand_start(ctx.rng, ctx.rng.choice(['date', 'float', 'utc', 'zone'])))
                 td = ctx.rng.choice(REL_TRIGGERS + [-1800, 1800, 5400, -5400, 172800, -172800, 43200, -43200, 604800])
                 if prov == 'zoneinfo' and offset_changes(v, timedelta(seconds=td)):
-                    ctx.corr('al_skip', ['zoneinfo-wallclock-dst', enc_val(v), str(td), prov], 'unmodelled')
+                    # the known finding: tie the wall-clock model (`wallAdd`) instead of the exact one
+                    res = al._add(v, timedelta(seconds=td))
+                    ctx.corr('al_wall', [str(wall(v)), str(td), str(res.utcoffset() // SEC), prov], enc_val(res))
                     continue
                 ctx.corr('al_add', [enc_val(v), str(td), prov], enc_val(al._add(v, timedelta(seconds=td))))
             for i, spec in enumerate(specs):
@@ -719,7 +750,7 @@ def check_spec(ctx, spec, prov, how):
             wseq.append(norm_time(wall_plus(wfirst, dur * k)))
         expected.append(seq)
         wallexp.append(wseq)
-    inp = {'spec': repr(spec), 'provider': prov, 'how': how}
+    inp = {'spec': to_jsonable(spec), 'provider': prov, 'how': how}
     try:
         ts = Alarms(comp).times
     except (ComponentStartMissing, ComponentEndMissing) as e:
@@ -769,7 +800,7 @@ def oracle(ctx):
 
 def replay(ctx, data):
     inp = data['input']
-    spec = eval(inp['spec'], {'datetime': datetime, 'date': date})  # noqa: S307 - our own repr
+    spec = from_jsonable(inp['spec'])
     with provider(inp['provider']):
         check_spec(ctx, spec, inp['provider'], inp.get('how', 'api'))
     for v in ctx.violations:
